@@ -421,8 +421,31 @@ def identical(a, b, *, equal_nan=False):
     return bool(C.all_of(conds))
 
 
-def allclose(a, b, rtol=None, atol=None, equal_nan=False):
-    raise C.Unsupported('allclose')
+def allclose(x, y, rtol=None, atol=None, equal_nan=False):
+    """scipp semantics: all(|x - y| <= atol + rtol*|y|); rtol defaults to 1e-5, atol to 1e-8 (dimensionless y only)."""
+    from fractions import Fraction as _F
+
+    if x.unit != y.unit:
+        raise UnitError(f'allclose: units differ {x.unit} vs {y.unit}')
+    if rtol is None:
+        rtol = scalar(1e-5)
+    if atol is None:
+        if y.unit not in (None, Unit()):
+            raise UnitError('allclose: atol must be given for data with a unit')
+        atol = scalar(1e-8)
+    if atol.unit != y.unit and not (atol.unit in (None, Unit()) and y.unit in (None, Unit())):
+        raise UnitError(f'allclose: atol unit {atol.unit} vs {y.unit}')
+    dims, shape = V._merge_dims(x, y)
+    xa = np.broadcast_to(V._expand(x, dims), shape)
+    ya = np.broadcast_to(V._expand(y, dims), shape)
+    conds = []
+    for idx in np.ndindex(shape):
+        p, q = xa[idx], ya[idx]
+        if getattr(p, 'special', None) or getattr(q, 'special', None):
+            conds.append(C.B.const(p.special == q.special and (p.special != 'nan' or equal_nan)))
+            continue
+        conds.append(_b.abs(p - q) <= atol.value + rtol.value * _b.abs(q))
+    return bool(C.all_of(conds))
 
 
 def issorted(x, dim, order='ascending'):
